@@ -219,6 +219,13 @@ structure PairObs (α : Type) where
   checks : List Check        -- one per checkpoint
   exports : List (String × Table α × Table α)   -- format, parsed export of a, of b
   queries : List (String × String × String)     -- query, answer of a, answer of b
+  /-- `get_value_by_ids(o, s)` answers: of a freshly built twin in its as-built layout (asked before
+  anything else), and of the operand itself wherever the history asks -/
+  cellsA : List (Id × Id × α) := []
+  cellsB : List (Id × Id × α) := []
+  /-- `data(id, axis)` answers of the freshly built twins -/
+  vecsA : List (Axis × Id × List α) := []
+  vecsB : List (Axis × Id × List α) := []
 
 /-- `descriptive_equality` must say "equal" exactly for equal content, and otherwise name a
 component that really differs -/
@@ -237,9 +244,18 @@ def checkOk [DecidableEq α] (a b : Table α) (c : Check) : Bool :=
   c.neAB == !decide (a = b) && c.neBA == !decide (a = b) &&
   descOk a b c.descAB && descOk b a c.descBA
 
+/-- every per-cell and per-ID answer is the content's value for those IDs -/
+def cellsOk [DecidableEq α] (t : Table α) (cells : List (Id × Id × α)) : Bool :=
+  cells.all (fun c => decide (t.cell? c.1 c.2.1 = some c.2.2))
+
+def vecsOk [DecidableEq α] (t : Table α) (vecs : List (Axis × Id × List α)) : Bool :=
+  vecs.all (fun v => decide (t.vec? v.1 v.2.1 = some v.2.2))
+
 open Codec in
 def holdsPair [DecidableEq α] (o : PairObs α) : Verdict :=
   allV [
+    chk "cell-query-differs-from-content" (cellsOk o.a o.cellsA && cellsOk o.b o.cellsB),
+    chk "vector-query-differs-from-content" (vecsOk o.a o.vecsA && vecsOk o.b o.vecsB),
     chk "accessors-changed-content" (decide (o.a' = o.a) && decide (o.b' = o.b)),
     chk "eq-iff-content" (o.checks.all (checkOk o.a o.b)),
     chk "no-checkpoint" (!o.checks.isEmpty),
@@ -285,13 +301,23 @@ def holdsKernel [DecidableEq α] (o : KernelObs α) : Verdict :=
 
 /-! ## model observations -/
 
+/-- the model of `get_value_by_ids` / `data` is the lookup by IDs in the content -/
+def modelCells (t : Table α) : List (Id × Id × α) :=
+  t.obs.flatMap (fun o => t.samp.filterMap (fun s => (t.cell? o s).map (fun v => (o, s, v))))
+
+def modelVecs (t : Table α) : List (Axis × Id × List α) :=
+  t.obs.filterMap (fun o => (t.vec? .obs o).map (fun v => (Axis.obs, o, v))) ++
+  t.samp.filterMap (fun s => (t.vec? .samp s).map (fun v => (Axis.samp, s, v)))
+
 def modelPair [Zero α] [DecidableEq α] (conv : CS α → CS α)
     (exps : List (String × (Table α → Table α))) (qs : List (String × (Table α → String)))
     (steps : List Step) (a b : Rep α) : PairObs α :=
   let (cs, af, bf) := runChecks conv steps a b
   { a := a.content, b := b.content, a' := af.content, b' := bf.content, checks := cs,
     exports := exps.map (fun e => (e.1, e.2 a.content, e.2 b.content)),
-    queries := qs.map (fun q => (q.1, q.2 a.content, q.2 b.content)) }
+    queries := qs.map (fun q => (q.1, q.2 a.content, q.2 b.content)),
+    cellsA := modelCells a.content, cellsB := modelCells b.content,
+    vecsA := modelVecs a.content, vecsB := modelVecs b.content }
 
 def modelFamily [Zero α] [DecidableEq α] (rs : List (Rep α)) : FamilyObs α :=
   { ts := rs.map Rep.content, eqs := rs.map (fun r => rs.map (fun s => tableEq r s)) }
@@ -313,10 +339,11 @@ def asMdIn (j : Json) : R (Option Md) :=
 def asAcc (s : String) : R Acc :=
   match s with
   | "nnz" => pure .nnz
-  | "data_obs" | "iter_obs" => pure .vecObs
-  | "data_samp" | "iter_samp" => pure .vecSamp
+  | "data_obs" | "iter_obs" | "to_tsv" | "to_tsv_key" | "str" | "to_hdf5_raised" => pure .vecObs
+  | "data_samp" | "iter_samp" | "to_json" | "to_hdf5" | "to_hdf5_raised_samp" => pure .vecSamp
   | "get_value" => pure .getValue
-  | "matrix_data" | "sum" | "metadata" => pure .plain
+  | "matrix_data" | "sum" | "metadata" | "to_dataframe" | "md_df_obs" | "md_df_samp" | "repr"
+  | "to_dataframe_raised" | "md_df_obs_raised" | "md_df_samp_raised" => pure .plain
   | s => .error s!"bad accessor {s}"
 
 def asFmt (s : String) : R Fmt :=
@@ -368,6 +395,16 @@ def layoutOk (content : Table Rat) (fmt : String) (c : CS Rat) : Bool :=
   (if fmt == "csc" then c.toDense == transposeGrid content.samp.length content.rows
    else c.toDense == content.rows)
 
+def asCell (j : Json) : R (Id × Id × Rat) := do
+  match (← asArr j) with
+  | [o, s, v] => pure ((← asStr o), (← asStr s), (← asRat v))
+  | _ => .error "cell must be [obs, samp, value]"
+
+def asVec (j : Json) : R (Axis × Id × List Rat) := do
+  match (← asArr j) with
+  | [a, i, v] => pure ((← asAxis a), (← asStr i), (← asList asRat v))
+  | _ => .error "vector must be [axis, id, values]"
+
 def handlePair (req : Json) : R Json := do
   let ja ← fld req "a"
   let jb ← fld req "b"
@@ -377,7 +414,9 @@ def handlePair (req : Json) : R Json := do
     a' := (← asTable (← fld ja "content_after")), b' := (← asTable (← fld jb "content_after")),
     checks := (← listF asCheck req "checks"),
     exports := (← listF (asTriple asTable) req "exports"),
-    queries := (← listF (asTriple asStr) req "queries") }
+    queries := (← listF (asTriple asStr) req "queries"),
+    cellsA := (← listF asCell ja "cells"), cellsB := (← listF asCell jb "cells"),
+    vecsA := (← listF asVec ja "vecs"), vecsB := (← listF asVec jb "vecs") }
   let ra ← asRep (← fld ja "model_in")
   let rb ← asRep (← fld jb "model_in")
   let (mchecks, af, bf) := runChecks id steps ra rb
